@@ -181,18 +181,18 @@ CHECKS = {
 GROWTH = {
  "C01": " Round 5: collection operations with a single operand (overlapping parts, crossing lines); the same numeric code under two authorities (EPSG / ESRI 4812, IAU / EPSG 30165) in both construction orders.",
  "C08": " Round 5: self-crossing rings as regions given in another CRS. Round 6: regions whose extent in the target CRS has edges a few thousandths of a unit from whole numbers, on sub-unit pixels.",
- "C09": " Round 5: Dataset-level spatial attributes on reprojection; control points off the integer pixel corners.",
+ "C09": " Round 5: Dataset-level spatial attributes on reprojection; control points off the integer pixel corners. Round 6: a non-spatial dimension of length 1.",
  "C02": " Operation parameters take values on both sides of every default (zero / asymmetric pads, buffers in tenths of a pixel, zoom factors 1/2, 1, 2, 3), every crop spelling, crops by region "
         "(pixel / world geometry, bounding box, another GeoBox); an Observe action marks boxes whose views were READ before the operation (caches), and every operation runs under each call spelling "
         "(method / module-level function / defaulted argument).",
  "C03": " Added: rasters of thousands of pixels related by sub-tolerance rotations / shears (exact ring probing with a per-case denominator), near-tolerance residues between rasters tens of thousands "
         "of pixels apart, lon/lat sources reaching the poles under kilometre tiles of polar projections. Round 5: polar rasters CONTAINING the pole against lon/lat windows next to it, both directions (the reverse direction exposes known findings C03-K3 / K4). Round 6: shears in either off-diagonal term alone (shared with C10).",
  "C04": " Block assembly is also run after an extract-and-overwrite history (results must not alias the blocks or the caller's inputs). Round 5: blocks of tiles spelled with a negative start reaching beyond the first tile.",
- "C05": " Added: flat / thin images padded by whole tiles, irregular source chunking, destinations holding an earlier file, pixel patterns that decide the compressed tile sizes (constant / noise). Round 5: GDAL-style effort / tolerance options together with the compressions they belong to (LERC with a second codec).",
+ "C05": " Added: flat / thin images padded by whole tiles, irregular source chunking, destinations holding an earlier file, pixel patterns that decide the compressed tile sizes (constant / noise). Round 5: GDAL-style effort / tolerance options together with the compressions they belong to (LERC with a second codec). Round 6: float pixels at the far end of the type's range; the library's default for band statistics.",
  "C06": " Configurations now include three write credits with a three-chunk middle partition, several sub-minimum partitions in front of a writer and partitions without any chunk (leading, trailing, "
         "adjacent, all); the dask phase runs ~3000 configurations in parallel. Round 6: a write refused while the graph is built is an outcome of the write.",
  "C07": " Added: collections of one member type / of one member / nested, the dateline option on geometries away from the dateline combined with densification. Round 5: edges more than 10 000 times the densification step (measured per path, vertex count compared with the model); geographic-to-geographic reprojection with a step.",
- "C11": " Added: a shape together with a numeric resolution, output pixels hundreds of source pixels wide with tolerances stricter than the default on sources whose edge lies just past a coarse grid line. Round 5: tight mode must give the same grid whichever anchor is named; requests issued after the process has met 120 CRSs.",
+ "C11": " Added: a shape together with a numeric resolution, output pixels hundreds of source pixels wide with tolerances stricter than the default on sources whose edge lies just past a coarse grid line. Round 5: tight mode must give the same grid whichever anchor is named; requests issued after the process has met 120 CRSs. Round 6: sources registered by control points and rescaled (their resolution measured through pix2wld).",
  "C12": " Added: one grid tiled twice (every pair of 7 tilings, regular tile specs), sources wrapping the globe under regional rasters. Round 5: queries without area (segments). Round 6: destination tiles tens of degrees wide over small polar-projection source tiles along their curved edge.",
  "C13": " Added: sibling reprojections with other fill parameters evaluated as ONE graph (dask.compute(a, b, c)). Round 5: a larger last chunk; the same rasters lazily reprojected earlier with rotated chunk boundaries.",
  "C14": " Added: one geobox cache shared by a box query and repeated polygon queries. Round 5: multi-part queries with one part in the empty corner of the other part's bounding box. Round 6: polygons far smaller than a pixel.",
